@@ -275,7 +275,7 @@ def classify(c, flags):
     if flags & 64:
         # class: confinement on and overwrite on (the second run re-adds, at module level, imports that the first
         # run confined under `if TYPE_CHECKING:`)
-        fid = "kf_confine_reimports" if (c["confine"] and c["overwrite"]) else None
+        fid = None      # (kf_confine_reimports was repaired in /repo by 1f54bc8: any non-idempotence is a violation)
         res.append((fid, f"{tag}: applying the same stub to the output changed it again"))
     if flags & 8:
         fid = None
